@@ -145,7 +145,7 @@ Qed.
 (* a log naming another block hash than the fetched header: the header hash is overwritten *)
 Definition w_skew : world :=
   mkWorld RFail (RBody [mkBelem false (Some (hb 5 51 50))]) RFail
-          (RBody (mkLbatch 2 false true false (Some [Some (mkLogr 5 [99] 0 [100] (mkLog 0 [7]))]))) [].
+          (RBody (mkLbatch 2 false (Some [51]) false (Some [Some (mkLogr 5 [99] 0 [100] (mkLog 0 [7]))]))) [].
 Lemma legacy_accepts_hash_skew :
   corrupted pl_hl 5 1 w_skew
   /\ legacy_get pl_hl 5 1 w_skew = Ok [mkBlock 5 [99] [50] [5] [mkTx 0 [100] [] [] [] [mkLog 0 [7]] []]]
@@ -156,9 +156,23 @@ Proof.
 Qed.
 
 (* a logs batch of one element: index out of range *)
-Definition w_logs_short : world := mkWorld RFail RFail RFail (RBody (mkLbatch 1 false true false None)) [].
+Definition w_logs_short : world := mkWorld RFail RFail RFail (RBody (mkLbatch 1 false (Some [51]) false None)) [].
 Lemma legacy_panics_on_short_logs_batch : legacy_get pl_l 5 1 w_logs_short = Panic /\ get pl_l 5 1 w_logs_short = Err.
 Proof. split; vm_compute; reflexivity. Qed.
+
+(* headers of one chain (block 5 = 0x33), then the logs batch answered from another chain (its header of block 5
+   = 0x63) in which block 5 has no matching log: nothing names a hash, the block is returned as empty *)
+Definition w_reorg_empty : world :=
+  mkWorld RFail (RBody [mkBelem false (Some (hb 5 51 50))]) RFail
+          (RBody (mkLbatch 2 false (Some [99]) false (Some []))) [].
+Lemma legacy_accepts_logs_of_other_chain :
+  corrupted pl_hl 5 1 w_reorg_empty
+  /\ legacy_get pl_hl 5 1 w_reorg_empty = Ok [hb 5 51 50]
+  /\ get pl_hl 5 1 w_reorg_empty = Err.
+Proof.
+  split; [|split; vm_compute; reflexivity].
+  eapply (CLgHeaderHash pl_hl 5 1 w_reorg_empty); side.
+Qed.
 
 Lemma legacy_head_panics : legacy_latest (RBody (mkHreply false None)) = Panic.
 Proof. reflexivity. Qed.
